@@ -115,3 +115,40 @@ def rule_no_lossy_map_merge(ctx, rid, fns, floor, what="input"):
             else:
                 ctx.violation(rid, key, "%s stores a collection with insert(key, value) inside a loop without looking the key up first: a repeated key overwrites what was collected before" % f.short, b.site(bi), key)
     ctx.floor(rid, "map_merge_sites", n, floor)
+
+
+def rule_fresh_buffers(ctx, rid, prefixes, floor=0):
+    """a per-item buffer must be fresh for every item"""
+    ctx.rule(rid, "a collection that is filled for one item of a loop and copied into that item's object is created (or emptied) inside the same loop iteration — a buffer that lives across iterations hands the items of earlier objects to later ones")
+    F = ctx.F
+    n = 0
+    for f in F.fns.values():
+        if not f.id.startswith(tuple(prefixes)):
+            continue
+        b = Body(f)
+        loops = b.loops()
+        if not loops:
+            continue
+        for l in range(b.argc + 1, len(b.locals)):
+            ty = b.local_ty(l)["s"]
+            if not COLL.match(ty) or b.local_name(l) is None:
+                continue
+            grow = [bi for bi, t in b.calls() if GROW.search(callee_name(t) or "") and t["args"] and root_local(b, t["args"][0]) == l]
+            copies = [bi for bi, t in b.calls() if re.search(r"Clone>::clone$|::to_vec$|::to_owned$", callee_name(t) or "") and t["args"] and root_local(b, t["args"][0]) == l]
+            if not grow or not copies:
+                continue
+            defs = b.defs.get(l, [])
+            whole = [d[0] for d in defs if (d[2] == "assign" and not d[3]["p"]["p"]) or (d[2] == "call" and not d[3]["dest"]["p"])]
+            resets = whole + [bi for bi, t in b.calls() if re.search(r"::(clear|drain|split_off)$|mem::(take|replace|swap)$", callee_name(t) or "") and t["args"] and any(root_local(b, a) == l for a in t["args"] if op_place(a) is not None)]
+            for cb in copies:
+                for header, blocks in loops:
+                    if cb not in blocks or not any(g in blocks for g in grow):
+                        continue
+                    n += 1
+                    key = "%s/%s" % (f.short, b.local_name(l))
+                    if any(r in blocks for r in resets):
+                        ctx.ok(rid, key, "created or emptied inside the loop that copies it")
+                    else:
+                        ctx.violation(rid, key, "%s: `%s` is filled and copied into an object inside a loop, but it is created outside that loop and never emptied in it: each later object also receives the entries collected for the earlier ones" % (
+                            f.short, b.local_name(l)), b.site(cb), key)
+    ctx.count("copied_loop_buffers", n)
